@@ -360,6 +360,12 @@ def replay(path):
         out = vh("dummy", [dict(p["scenario"], id="d0")], "c20_replay")
         flagged = []
         judge_dummy(out, lambda k, key, d, pl: flagged.append((key, d)) if k == "violation" else None)
+    elif kind == "or_dummy":
+        s = dict(p["scenario"], id="c0", combos=[], probe_or_dummy=True, or_dummy_only=True)
+        s.pop("slot", None)
+        out = vh("cond", [s], "c20_replay")
+        flagged = []
+        judge_cond(out, lambda k, key, d, pl: flagged.append((key, d)) if k == "violation" else None)
     else:
         o = p["observed"]
         s = dict(p["scenario"], id="c0", combos=[{"p0": o["p0"], "p1": o["p1"], "cond": o["cond"], "expect": o["expect"]}] * 3)
